@@ -104,10 +104,11 @@ def globalDimsVW {ρ : Type} (dims : Dims) (w : VWriter ρ) : VWriter ρ where
   metric o u d f := w.metric o u (d ++ dims) f
   error e := w.error e
 
-/-- `value/force.rs`: the local `Wrapper<W, FLAGS>`: `flags.try_merge(FLAGS::construct())`. -/
-def flagVW {ρ : Type} (forced : Mode) (w : VWriter ρ) : VWriter ρ where
+/-- `value/force.rs`: the local `Wrapper<W, FLAGS>`: `flags.try_merge(FLAGS::construct())`.
+`forced` is whatever `FLAGS::construct()` returns — possibly `MetricFlags::empty()` (`none`). -/
+def flagVW {ρ : Type} (forced : Flags) (w : VWriter ρ) : VWriter ρ where
   string s := w.string s
-  metric o u d f := w.metric o u d (tryMerge f (some forced))
+  metric o u d f := w.metric o u d (tryMerge f forced)
   error e := w.error e
 
 /-- `trait DynValueWriter` (`&mut self` methods): state-passing. -/
@@ -179,7 +180,7 @@ inductive Val where
   | optNone              -- `None::<T>`
   | withDims (v : Val) (dims : Dims)    -- `WithDimensions<V, N>` and value/dimensions.rs `Wrapper { value, dimensions }`
   | globalDims (v : Val) (dims : Dims)  -- entry/dimensions.rs `ValueWrapper { value, global_dimensions }`
-  | forceFlag (v : Val) (f : Mode)      -- `ForceFlag<V, FLAGS>`
+  | forceFlag (v : Val) (f : Flags)      -- `ForceFlag<V, FLAGS>`
   | dyn (v : Val)                       -- `ValueFromDyn(&ValueToDyn(v))`: the double-dispatch bridge of boxed.rs
   | formatted (fmt : Fmt) (v : Val)     -- `FormattedValue<V, VF, Lifted>`, `V` = containers over a plain value
   deriving Repr
@@ -276,7 +277,7 @@ def globalDimsEW {σ : Type} (dims : Dims) (deny : List Str) (w : EWriter σ) : 
   config s c := w.config s c
 
 /-- value/force.rs: `ForceFlagEntryWriter`: `ForceFlag::<_, FLAGS>::from(value)` with `value: &V`. -/
-def flagEW {σ : Type} (f : Mode) (w : EWriter σ) : EWriter σ where
+def flagEW {σ : Type} (f : Flags) (w : EWriter σ) : EWriter σ where
   timestamp s t := w.timestamp s t
   value s n v := w.value s n (Val.forceFlag (Val.ref v) f)
   config s c := w.config s c
@@ -295,7 +296,7 @@ inductive Ent where
   | mergedRef (a b : Ent)              -- `MergedRef<'_, E1, E2>`
   | withDims (e : Ent) (dims : Dims)   -- `WithDimensions<E, N>` as an entry
   | globalDims (e : Ent) (dims : Dims) (deny : List Str)  -- `WithGlobalDimensions<E, N>`
-  | forceFlag (e : Ent) (f : Mode)     -- `ForceFlag<E, FLAGS>` as an entry
+  | forceFlag (e : Ent) (f : Flags)     -- `ForceFlag<E, FLAGS>` as an entry
   | ref (e : Ent)                      -- `&T`
   | box (e : Ent)                      -- `Box<T>`
   | arc (e : Ent)                      -- `Arc<T>`
@@ -367,14 +368,14 @@ inductive Wrapper where
   | mergeRefBefore (other : Ent)  -- `other.merge_by_ref(&e)`
   | withDims (dims : Dims)
   | globalDims (dims : Dims) (deny : List Str)
-  | forceFlag (f : Mode)
+  | forceFlag (f : Flags)
   | ref | box | arc | cow | optSome | optNone | root
   /-- `MergeGlobals<S, G>::next/format`: `stream.next(&globals.merge_by_ref(entry))` -/
   | streamMergeGlobals (globals : Ent)
   /-- `MergeGlobalDimensions<S, N>::next/format` with its empty-dimension shortcut -/
   | streamGlobalDims (dims : Dims) (deny : List Str)
   /-- `impl EntryIoStream for ForceFlag<S, FLAGS>`: `self.0.next(&ForceFlag(entry, _))` -/
-  | streamForceFlag (f : Mode)
+  | streamForceFlag (f : Flags)
   deriving Repr
 
 def Wrapper.apply : Wrapper → Ent → Ent
@@ -416,8 +417,8 @@ def joinFlags : Flags → Flags → Flags
   | _, some .high => some .high
   | none, none => none
 
-def VCall.forceFlag (f : Mode) : VCall → VCall
-  | .metric m => .metric { m with flags := joinFlags m.flags (some f) }
+def VCall.forceFlag (f : Flags) : VCall → VCall
+  | .metric m => .metric { m with flags := joinFlags m.flags f }
   | c => c
 
 def Call.mapVal (g : Str → VCall → VCall) : Call → Call
@@ -461,7 +462,7 @@ def specSGAll (ws : List Wrapper) (g : Dims) : Dims := ws.foldl (fun g w => w.sp
 inductive VWrapper where
   | ref | box | arc | cow | optSome | optNone
   | withDims (d : Dims)
-  | forceFlag (f : Mode)
+  | forceFlag (f : Flags)
   | formatted (fmt : Fmt)
   | dyn
   deriving Repr
@@ -541,7 +542,7 @@ flag type). -/
 inductive Adapter where
   | mergeGlobals (globals : Ent)
   | globalDims (dims : Dims) (deny : List Str)
-  | forceFlag (f : Mode)
+  | forceFlag (f : Flags)
   deriving Repr
 
 /-- `next` / `format` of one layer over the stream `below` (stream.rs:190-228, format.rs:271-299,
